@@ -5,6 +5,7 @@
 use common::*;
 
 mod decimal;
+mod parsers;
 mod strings;
 
 /// re-answer one stored request line.  Oracle lines are *derived*: a stored input line is expanded
@@ -18,6 +19,7 @@ fn stream(name: &str) -> (Replay, Generate) {
   match name {
     "amount" => (decimal::replay_amount, decimal::generate_amount),
     "decimal" => (decimal::replay_decimal, decimal::generate_decimal),
+    "ids" | "outgoing" | "query" => (parsers::replay, parsers::generate),
     s => panic!("unknown stream {s}"),
   }
 }
